@@ -142,6 +142,9 @@ def run(ctx):
     # the periodic images really are the lattice translates of the placements (C14 obligations, necessary here)
     from .C14 import import_into
     import_into(ctx, 'LATTICE')
+    from .C12 import shape_transform_obligations
+    from .C12 import ALL_SHAPES
+    shape_transform_obligations(ctx, 'SHAPE', ALL_SHAPES[:2])
     # ---- FRAME ------------------------------------------------------------------------------------
     probs = positions_frames(f, ADT)
     rep.check(not probs, 'FRAME', 'placements-are-cartesian', ADT, 'cartesian_positions = relative_positions().map(to_cartesian_isometry); '
